@@ -146,7 +146,9 @@ func init() {
 			return "err dump"
 		}
 		// the property itself: a marker younger than the retention period is never swept,
-		// a live entry never, and an older marker always
+		// a live entry never, and an older marker always. The retention period is computed
+		// here from the configured days, not taken from the code under test.
+		rd = time.Duration(float64(math.Float32frombits(uint32(u64(a[1])))) * 86400e9)
 		for j, t := range toks {
 			mins := u64(t[:len(t)-1])
 			has := false
